@@ -1,9 +1,11 @@
 (* C16 -- anything read can be saved again, and a second generation equals the first.  Statements only.
-   PARTIAL: proved for the two codecs whose reader produces forms the writer has to accept again -- metadata values
-   (numpy scalars inside sequences) and Array calibrations (re-expanded dim vectors); trees, PointLists and legacy
-   imports are decided on the real code by the oracle (three generations). *)
+   Proved for the two codecs whose reader produces forms the writer has to accept again -- metadata values (numpy
+   scalars inside sequences) and Array calibrations (re-expanded dim vectors) -- and for trees (what read returned is
+   writable and readable again and reads back as the very same tree: canon is idempotent).  PARTIAL: PointList /
+   PointListArray contents and legacy imports are decided on the real code by the oracle (three generations). *)
 From Coq Require Import ZArith List PrimFloat.
 From Emd Require Import Base.Prelude Model.Md Model.Arr Proofs.P03 Proofs.P14 Proofs.P02 Proofs.P15 Proofs.P16.
+From Emd Require Model.H5 Model.Emd Model.Reader Proofs.PTree Proofs.PRead Proofs.PGen.
 
 Theorem C16_metadata_second_generation_equals_first :
   forall v, doc v = true ->
@@ -37,3 +39,23 @@ Example C16_bool_tuple_two_generations :
   docg (MTuple [MNp (SB true); MNp (SB false)]) = true /\
   exists it, save_item (MTuple [MNp (SB true); MNp (SB false)]) = Ok it.
 Proof. split; [reflexivity|]. split; [reflexivity|]. eexists. reflexivity. Qed.
+
+(* ---------- trees (model of C01): save, read, save what was read under any session configuration, read again *)
+Module Trees.
+Import Model.H5 Model.Emd Model.Reader Proofs.PTree Proofs.PRead Proofs.PGen.
+Theorem C16_tree_second_generation_equals_first :
+  forall c c' root,
+    rcls root = CRoot -> ok_tree root -> rd_tree root -> rname root <> "" -> no_slash (rname root) = true ->
+    exists f1 f2,
+      fresh_file c root [] (Some true) = Ok f1 /\ read (H5 f1) None None = Ok (RTree (canon root) RetRoot) /\
+      fresh_file c' (canon root) [] (Some true) = Ok f2 /\ read (H5 f2) None None = Ok (RTree (canon root) RetRoot) /\
+      read (H5 f2) None (Some true) = Ok (RTree (canon root) (ret_of (canon root))).
+Proof. exact tree_second_generation. Qed.
+Print Assumptions C16_tree_second_generation_equals_first.
+
+(* what read returns is a fixed point of a generation, hence any number of generations *)
+Theorem C16_tree_read_result_is_a_fixed_point :
+  forall t, canon (canon t) = canon t /\ (ok_tree t -> ok_tree (canon t)) /\ (rd_tree t -> rd_tree (canon t)).
+Proof. intros t. split; [apply canon_idem|]. split; [apply ok_tree_canon|apply rd_tree_canon]. Qed.
+Print Assumptions C16_tree_read_result_is_a_fixed_point.
+End Trees.
